@@ -110,6 +110,9 @@ func runC18(c *Ctx, r *Rec) {
 			nD3++
 			construct := name + "/" + p.Name()
 			bad := operandDiscipline(c, info, fd, i, map[string]bool{})
+			if bad == "" {
+				bad = mutationBeforeOperandRead(c, info, fd, p)
+			}
 			r.check(bad == "", "D3-operand-snapshot", construct, c.pos(fd.Pos()), "the operand is read only through GetSize/IsEmpty/AsArray/GetIterator (or handed to a method that does so)", bad)
 		}
 	}
@@ -223,4 +226,63 @@ func operandDiscipline(c *Ctx, info *types.Info, fd *ast.FuncDecl, pi int, visit
 		return true
 	})
 	return bad
+}
+
+// mutationBeforeOperandRead: in a bulk method no change of the receiver may
+// precede a read of the operand (when the receiver itself is the operand, the
+// operand would already be changed when it is read).
+func mutationBeforeOperandRead(c *Ctx, info *types.Info, fd *ast.FuncDecl, sigParam *types.Var) string {
+	recv := recvObj(info, fd)
+	var p types.Object
+	for _, po := range paramObjs(info, fd) {
+		if po.Name() == sigParam.Name() {
+			p = po
+		}
+	}
+	if recv == nil || p == nil {
+		return ""
+	}
+	g := newFG(info, fd.Body)
+	isUse := func(n ast.Node) bool {
+		return nodeHas(n, func(x ast.Node) bool { id, ok := x.(*ast.Ident); return ok && info.Uses[id] == p })
+	}
+	isMutation := func(n ast.Node) (bool, string) {
+		what := ""
+		inspectNoLit(n, func(x ast.Node) bool {
+			switch s := x.(type) {
+			case *ast.CallExpr:
+				if rx, mname, _, ok := methodCall(s); ok && recvRooted(info, rx, recv) && (listMutators[mname] || mname == "AddValue" || mname == "AddValues" || mname == "RemoveTop" || mname == "RemoveHead") {
+					what = mname
+				}
+				if isBuiltinCall(info, s, "delete") && len(s.Args) == 2 && recvRooted(info, s.Args[0], recv) {
+					what = "delete"
+				}
+			case *ast.AssignStmt:
+				for _, l := range s.Lhs {
+					l = ast.Unparen(l)
+					if ix, ok := l.(*ast.IndexExpr); ok && recvRooted(info, ix.X, recv) {
+						what = "element store"
+					}
+					if se, ok := l.(*ast.SelectorExpr); ok && selectorField(info, se) != nil && isObj(info, se.X, recv) {
+						what = "field store"
+					}
+				}
+			}
+			return true
+		})
+		return what != "", what
+	}
+	for _, b := range g.order {
+		for i, n := range b.Nodes {
+			mut, what := isMutation(n)
+			if !mut {
+				continue
+			}
+			found, w := g.exists(pathQuery{from: point{b, i + 1}, goalNode: func(m ast.Node) bool { return m != n && isUse(m) }})
+			if found {
+				return fmt.Sprintf("the receiver is changed (%s at %s) before the operand %s is read at %s: when a collection is passed as the operand of its own bulk operation the operand has already been modified (InsertValues(1, self) on [1 2 3] loses elements)", what, c.pos(n.Pos()), p.Name(), c.pos(w.Pos()))
+			}
+		}
+	}
+	return ""
 }
